@@ -53,7 +53,7 @@ BUILTIN_EXC = {
     "StopIteration": "Exception", "StopAsyncIteration": "Exception", "OSError": "Exception",
     "FileNotFoundError": "OSError", "NotADirectoryError": "OSError", "IsADirectoryError": "OSError",
     "PermissionError": "OSError", "UnicodeError": "ValueError", "UnicodeDecodeError": "UnicodeError",
-    "UnicodeEncodeError": "UnicodeError", "ZeroDivisionError": "ArithmeticError", "ArithmeticError": "Exception",
+    "UnicodeEncodeError": "UnicodeError", "ZeroDivisionError": "ArithmeticError", "ArithmeticError": "Exception", "OverflowError": "ArithmeticError",
     "AttributeError": "Exception", "JSONDecodeError": "ValueError", "InvalidOperation": "ArithmeticError",
     "TimeoutError": "OSError", "CancelledError": "BaseException", "RecursionError": "RuntimeError",
     "GeneratorExit": "BaseException",
